@@ -298,6 +298,9 @@ def trio_current_token(I, args, kwargs):
 def trio_open_memory_channel(I, args, kwargs):
     """trio.open_memory_channel(inf): a fresh (send, receive) pair; the send side is open"""
     ctx = I.ctx
+    size = ctx.to_val(args[0] if args else kwargs.get("max_buffer_size"))
+    # the assumed contract of send / send_nowait (never blocks, never raises WouldBlock) is the UNBOUNDED channel's
+    ctx.oblige("trio.open_memory_channel/requires[the-channel-is-unbounded-max_buffer_size-is-inf]", size.t == Z.POS_INF, kind="pre")
     send = fresh_abstract(I, "trio.SendChannel", closed=False)
     recv = fresh_abstract(I, "trio.ReceiveChannel")
     ctx.store_raw(ctx.ref_id(recv), "peer", send.t)
